@@ -80,10 +80,30 @@ ApplyFilter(ts, f) ==
 RECURSIVE ApplyFilters(_, _, _)
 ApplyFilters(ts, fs, k) == IF k > Len(fs) THEN ts ELSE ApplyFilters(ApplyFilter(ts, fs[k]), fs, k + 1)
 
+\* the regex tokenizer with a NULLABLE pattern `C*` (or `C+|`) over a character class C.  What the
+\* code does (established on the unchanged tree, and what its documentation says: "empty tokens are
+\* not emitted"): the stream searches the leftmost match in the rest of the text; a nullable pattern
+\* always matches at the very start of the rest, greedily; an empty match ENDS the stream.  So the
+\* stream is the maximal run of C at the start of the text if there is one (a single token), and
+\* nothing otherwise - whatever follows, multi-byte or not, is never looked at again.
+\* Classes (on the code points of ClassAlphabet): "w" = \w (alphabetic, marks, digits, connector
+\* punctuation: the combining acute is a word character), "az" = [a-z], "09" = [0-9], "x" = the letter x.
+InRegexClass(cls, c) ==
+  CASE cls = "w"  -> Alnum(c) \/ c \in {769, 775, 95}
+    [] cls = "az" -> c >= 97 /\ c <= 122
+    [] cls = "09" -> c >= 48 /\ c <= 57
+    [] cls = "x"  -> c = 120
+RegexNullable(text, cls) ==
+  LET stops == {i \in 1..Len(text) : ~InRegexClass(cls, text[i])}
+      n == IF stops = {} THEN Len(text) ELSE (CHOOSE i \in stops : \A j \in stops : i <= j) - 1
+  IN  IF n = 0 THEN <<>> ELSE << <<0, Offs(text)[n + 1], 0, SubSeq(text, 1, n)>> >>
+
 \* a chain: [tok |-> <<kind, params...>>, filters |-> <<...>>, exact |-> the token texts are specified]
+\* (<<"regex", pattern>>: token texts not specified; <<"regex", pattern, class>>: nullable pattern over class)
 Tokenize(text, tok) ==
   CASE tok[1] = "raw" -> Raw(text) [] tok[1] = "whitespace" -> Whitespace(text) [] tok[1] = "simple" -> Simple(text)
     [] tok[1] = "ngram" -> Ngram(text, tok[2], tok[3], tok[4]) [] tok[1] = "facet" -> Facet(text)
+    [] tok[1] = "regex" -> RegexNullable(text, tok[3])
 Analyze(text, chain) == ApplyFilters(Tokenize(text, chain.tok), chain.filters, 1)
 
 \* what every chain owes: offsets inside the text, on character boundaries, from <= to, positions
